@@ -6,10 +6,13 @@
       element   ::= < Name (S Attribute)* S? > content </ Name >
       Attribute ::= Name = DQUOTE (any character but <, &, DQUOTE | Reference)* DQUOTE   (names distinct)
       content   ::= (CharData | element)*      CharData ::= (any character but <, &, > | Reference)*
-      Reference ::= &lt; | &gt; | &amp; | &quot; | &#39;
+      Reference ::= &lt; | &gt; | &amp; | &quot; | &#39; | &#13;
     Character data is taken without '>' at all (stricter than XML, which only forbids the sequence ]]>).
     Characters are XML characters relative to Unicode scalar values: a scalar value is allowed
-    unless it is a C0 control other than TAB, LF, CR, or U+FFFE / U+FFFF ([non_xml]). *)
+    unless it is a C0 control other than TAB, LF, CR, or U+FFFE / U+FFFF ([non_xml]).
+    A literal CR is not taken as character data, and a literal TAB, LF or CR is not taken in an
+    attribute value: a parser replaces them before the application sees them (XML 1.0, 2.11 and
+    3.3.3), so they would not come back as written; CR is written as the reference &#13;. *)
 Require Import SB.Model.Base SB.Model.Unicode SB.Model.Geom SB.Model.Svg.
 From Coq Require Import String.
 From Coq Require Import List.
@@ -24,8 +27,8 @@ Definition name_start (c : Z) : bool := is_alpha c || (c =? 95) || (c =? 58).
 Definition name_char (c : Z) : bool := name_start c || is_digit c || (c =? 45) || (c =? 46).
 Definition is_name (s : list Z) : bool := match s with [] => false | c :: t => name_start c && forallb name_char t end.
 
-Definition att_ok (c : Z) : bool := negb (non_xml c) && negb ((c =? 60) || (c =? 38) || (c =? 34)).
-Definition text_ok (c : Z) : bool := negb (non_xml c) && negb ((c =? 60) || (c =? 38) || (c =? 62)).
+Definition att_ok (c : Z) : bool := negb (non_xml c) && negb ((c =? 60) || (c =? 38) || (c =? 34) || (c =? 9) || (c =? 10) || (c =? 13)).
+Definition text_ok (c : Z) : bool := negb (non_xml c) && negb ((c =? 60) || (c =? 38) || (c =? 62) || (c =? 13)).
 
 (** raw text with references, and the value it denotes *)
 Inductive chars_ref (ok : Z -> bool) : list Z -> list Z -> Prop :=
@@ -35,7 +38,8 @@ Inductive chars_ref (ok : Z -> bool) : list Z -> list Z -> Prop :=
 | cr_gt raw v : chars_ref ok raw v -> chars_ref ok (zs "&gt;" ++ raw) (62 :: v)
 | cr_amp raw v : chars_ref ok raw v -> chars_ref ok (zs "&amp;" ++ raw) (38 :: v)
 | cr_quot raw v : chars_ref ok raw v -> chars_ref ok (zs "&quot;" ++ raw) (34 :: v)
-| cr_apos raw v : chars_ref ok raw v -> chars_ref ok (zs "&#39;" ++ raw) (39 :: v).
+| cr_apos raw v : chars_ref ok raw v -> chars_ref ok (zs "&#39;" ++ raw) (39 :: v)
+| cr_cr raw v : chars_ref ok raw v -> chars_ref ok (zs "&#13;" ++ raw) (13 :: v).
 
 Inductive ser_attrs : list (list Z * list Z) -> list Z -> Prop :=
 | sa_nil : ser_attrs [] []
@@ -55,7 +59,7 @@ with ser_list : list xnode -> list Z -> Prop :=
 (** ** character data *)
 Lemma chars_ref_app ok a va b vb : chars_ref ok a va -> chars_ref ok b vb -> chars_ref ok (a ++ b) (va ++ vb).
 Proof.
-  induction 1 as [|c raw v Hc H IH|raw v H IH|raw v H IH|raw v H IH|raw v H IH|raw v H IH]; intros Hb.
+  induction 1 as [|c raw v Hc H IH|raw v H IH|raw v H IH|raw v H IH|raw v H IH|raw v H IH|raw v H IH]; intros Hb.
   - exact Hb.
   - cbn [app]. apply cr_char; auto.
   - rewrite <- app_assoc. cbn [app]. apply cr_lt; auto.
@@ -63,6 +67,7 @@ Proof.
   - rewrite <- app_assoc. cbn [app]. apply cr_amp; auto.
   - rewrite <- app_assoc. cbn [app]. apply cr_quot; auto.
   - rewrite <- app_assoc. cbn [app]. apply cr_apos; auto.
+  - rewrite <- app_assoc. cbn [app]. apply cr_cr; auto.
 Qed.
 Lemma chars_ref_plain ok s : forallb ok s = true -> chars_ref ok s s.
 Proof. induction s as [|c t IH]; cbn [forallb]; intros H; [constructor|]. apply andb_true_iff in H. destruct H. constructor; auto. Qed.
@@ -79,8 +84,10 @@ Proof.
   destruct (Z.eqb_spec c 38) as [->|N38]; [change (non_xml 38) with false; cbn [negb]; apply cr_amp; exact IH|].
   destruct (Z.eqb_spec c 39) as [->|N39]; [change (non_xml 39) with false; cbn [negb]; apply cr_apos; exact IH|].
   destruct (Z.eqb_spec c 34) as [->|N34]; [change (non_xml 34) with false; cbn [negb]; apply cr_quot; exact IH|].
+  destruct (Z.eqb_spec c 13) as [->|N13]; [change (non_xml 13) with false; cbn [negb]; apply cr_cr; exact IH|].
   destruct (non_xml c) eqn:NX; cbn [negb app]; [exact IH|].
   constructor; [|exact IH]. unfold text_ok. rewrite NX. cbn [negb andb].
+  replace (c =? 13) with false by (symmetry; apply Z.eqb_neq; exact N13).
   replace (c =? 60) with false by (symmetry; apply Z.eqb_neq; exact N60).
   replace (c =? 38) with false by (symmetry; apply Z.eqb_neq; exact N38).
   replace (c =? 62) with false by (symmetry; apply Z.eqb_neq; exact N62). reflexivity.
@@ -259,4 +266,80 @@ Proof.
     exists (XElem tag (xattrs (merge_same_name attrs)) xs). split.
     + cbn [render]. apply ser_elem; [exact Hn|apply xattrs_nodup; apply merge_same_name_nodup|apply render_attrs_ser; exact Ha|exact Xs].
     + unfold xshapes, nshapes; cbn [flat_map]. rewrite xshape1_elem, nshape1_elem, Shs. reflexivity.
+Qed.
+
+(** ** the pretty and the compressed rendering are the same document (C18)
+    Two trees are the same document up to the pretty printer's white space when they differ
+    only by text children that are empty or a line feed followed by blanks (what [indent]
+    writes).  White space that is the content of a text element, such as the quoted text of one
+    blank, has no line feed and must be present in both. *)
+Inductive indent_ws : list Z -> Prop :=
+| iw_nil : indent_ws []
+| iw_nl n : indent_ws (10 :: repeatZ 32 n).
+Inductive same_doc : xnode -> xnode -> Prop :=
+| sd_text v : same_doc (XText v) (XText v)
+| sd_elem t a k1 k2 : same_kids k1 k2 -> same_doc (XElem t a k1) (XElem t a k2)
+with same_kids : list xnode -> list xnode -> Prop :=
+| sk_nil : same_kids [] []
+| sk_cons x y r1 r2 : same_doc x y -> same_kids r1 r2 -> same_kids (x :: r1) (y :: r2)
+| sk_left v r1 r2 : indent_ws v -> same_kids r1 r2 -> same_kids (XText v :: r1) r2
+| sk_right v r1 r2 : indent_ws v -> same_kids r1 r2 -> same_kids r1 (XText v :: r2).
+
+Lemma indent_is_ws c d : indent_ws (indent c d).
+Proof. unfold indent. destruct c; constructor. Qed.
+Lemma same_kids_app a1 a2 b1 b2 : same_kids a1 a2 -> same_kids b1 b2 -> same_kids (a1 ++ b1) (a2 ++ b2).
+Proof.
+  intros Ha Hb. revert a1 a2 Ha.
+  fix IH 3. intros a1 a2 Ha. destruct Ha as [|x y r1 r2 Hx Hr|v r1 r2 Hv Hr|v r1 r2 Hv Hr]; cbn [app].
+  - exact Hb.
+  - apply sk_cons; [exact Hx|apply IH; exact Hr].
+  - apply sk_left; [exact Hv|apply IH; exact Hr].
+  - apply sk_right; [exact Hv|apply IH; exact Hr].
+Qed.
+
+Theorem render_same_doc : forall n d, safe n ->
+  exists xp xc, ser xp (render false d n) /\ ser xc (render true d n) /\ same_doc xp xc.
+Proof.
+  induction n as [s|tag attrs kids IH] using node_ind'; intros d S.
+  - destruct S as [v Hv]. exists (XText v), (XText v). split; [constructor; exact Hv|]. split; [constructor; exact Hv|constructor].
+  - apply safe_elem in S. destruct S as [Hn [Ha Sk]].
+    assert (K : forall dd, exists xp xc,
+                  ser_list xp (flat_map (fun k => indent false dd ++ render false dd k) kids)
+                  /\ ser_list xc (flat_map (fun k => indent true dd ++ render true dd k) kids) /\ same_kids xp xc).
+    { intros dd. clear Hn Ha. induction IH as [|k r Hk Fr IHr]; cbn [flat_map].
+      - exists [], []. repeat split; constructor.
+      - cbn [safe_all] in Sk. destruct Sk as [Sk1 Sk2]. destruct (Hk dd Sk1) as [kp [kc [Kp [Kc Ks]]]]. destruct (IHr Sk2) as [rp [rc [Rp [Rc Rs]]]].
+        exists (XText (indent false dd) :: kp :: rp), (XText (indent true dd) :: kc :: rc). split; [|split].
+        + rewrite <- app_assoc. apply sl_cons; [constructor; apply indent_text|]. apply sl_cons; assumption.
+        + rewrite <- app_assoc. apply sl_cons; [constructor; apply indent_text|]. apply sl_cons; assumption.
+        + apply sk_left; [apply indent_is_ws|]. apply sk_right; [apply indent_is_ws|]. apply sk_cons; assumption. }
+    assert (Body : exists xp xc,
+       ser_list xp (match kids with [TextLeaf s] => s | [] => [] | _ => flat_map (fun k => indent false (S d) ++ render false (S d) k) kids ++ indent false d end)
+       /\ ser_list xc (match kids with [TextLeaf s] => s | [] => [] | _ => flat_map (fun k => indent true (S d) ++ render true (S d) k) kids ++ indent true d end)
+       /\ same_kids xp xc).
+    { destruct kids as [|k0 r0].
+      - exists [], []. repeat split; constructor.
+      - destruct (K (S d)) as [xp [xc [Xp [Xc Xs]]]].
+        assert (General : exists xp0 xc0,
+           ser_list xp0 (flat_map (fun k => indent false (S d) ++ render false (S d) k) (k0 :: r0) ++ indent false d)
+           /\ ser_list xc0 (flat_map (fun k => indent true (S d) ++ render true (S d) k) (k0 :: r0) ++ indent true d)
+           /\ same_kids xp0 xc0).
+        { exists (xp ++ [XText (indent false d)]), (xc ++ [XText (indent true d)]). split; [|split].
+          - clear - Xp. induction Xp as [|k ks s1 s2 H1 H2 IHs]; cbn [app].
+            + apply ser_list_single. constructor. apply indent_text.
+            + rewrite <- app_assoc. apply sl_cons; assumption.
+          - clear - Xc. induction Xc as [|k ks s1 s2 H1 H2 IHs]; cbn [app].
+            + apply ser_list_single. constructor. apply indent_text.
+            + rewrite <- app_assoc. apply sl_cons; assumption.
+          - apply same_kids_app; [exact Xs|]. apply sk_left; [apply indent_is_ws|]. apply sk_right; [apply indent_is_ws|]. constructor. }
+        destruct k0 as [t0 a0 kk0|s0]; [exact General|]. destruct r0 as [|k1 r1]; [|exact General].
+        cbn [safe_all safe] in Sk. destruct Sk as [[v Hv] _]. exists [XText v], [XText v]. split; [|split].
+        + apply ser_list_single. constructor. exact Hv.
+        + apply ser_list_single. constructor. exact Hv.
+        + apply sk_cons; constructor. }
+    destruct Body as [xp [xc [Xp [Xc Xs]]]].
+    exists (XElem tag (xattrs (merge_same_name attrs)) xp), (XElem tag (xattrs (merge_same_name attrs)) xc). split; [|split].
+    + cbn [render]. apply ser_elem; [exact Hn|apply xattrs_nodup; apply merge_same_name_nodup|apply render_attrs_ser; exact Ha|exact Xp].
+    + cbn [render]. apply ser_elem; [exact Hn|apply xattrs_nodup; apply merge_same_name_nodup|apply render_attrs_ser; exact Ha|exact Xc].
+    + constructor. exact Xs.
 Qed.
